@@ -84,7 +84,8 @@ class Run:
         st = self.rig.state
         if st not in self.model:
             # grace: transitions run on other threads; re-sample once idle
-            self.rig.wait(lambda: self.rig.state in self.model, timeout=1.0)
+            if not self.rig.wait(lambda: self.rig.state in self.model, timeout=1.0):
+                self.rig.confirm_absent(lambda: self.rig.state in self.model)    # wall-clock grace, only paid on suspicious cases
             st = self.rig.state
         if st not in self.model:
             self.violation(f"state-differs-from-E37:{where}:model-{'|'.join(sorted(self.model))}:real-{st}")
@@ -316,6 +317,10 @@ class Run:
                 self.violation("data-delivered-while-not-selected:reply-to-outstanding-request", returned=got is not None, delivered_to_app=len(delivered))
                 return
             rej = [f for f in frames if f.stype == wire.REJECT_REQ and f.system == system]
+            if not rej:
+                self.rig.confirm_absent(lambda: any(f.system == system for f in self.peek_frames()))
+                frames = frames + self.new_frames()
+                rej = [f for f in frames if f.stype == wire.REJECT_REQ and f.system == system]
             if len(rej) != 1 or rej[0].byte3 != 4:
                 self.violation("data-while-not-selected-not-rejected-once:reply-to-outstanding-request", frames=[f.describe() for f in frames if f.system == system])
 
